@@ -8,7 +8,6 @@ import Helm.Props.C10
 #print axioms Helm.Props.C10.delete_missing_fails_and_changes_nothing
 #print axioms Helm.Props.C10.delete_returns_stored
 #print axioms Helm.Props.C10.list_skips_unreadable
-#print axioms Helm.Props.C10.configmaps_get_undecodable
-#print axioms Helm.Props.C10.counterexample_secrets_get_undecodable
+#print axioms Helm.Props.C10.get_undecodable_is_error
 #print axioms Helm.Props.C10.counterexample_memory_dotv
 #print axioms Helm.Props.C10.mem_create_get
